@@ -10,9 +10,9 @@ from fractions import Fraction as F
 from mc import domains as D
 from mc.engine import InputPart, Viol
 from mc.models import ival
-from mc.props.common import IT, PT, Textgrid, errors, call, ents, order_type, cmp3, wellformed
+from mc.props.common import IT, PT, Textgrid, errors, call, ents, order_type, cmp3, wellformed, fresh
 
-MODES = ("strict", "lax", "truncated")
+MODES = fresh(("strict", "lax", "truncated"))
 
 
 def _check_iv(case, exact):
